@@ -28,7 +28,7 @@ M('c04-asgi-narrow-except-render', 'C04', 'R1', 'falcon/asgi/app.py',
             req_succeeded = False
 
         resp_status: int = resp.status_code
-""", also=('C03',))
+""", also=('C03', 'C05'))   # C05 R14 = the render-call protection of C04 R1, shared
 M('c04-wsgi-presp-reraise-always', 'C04', 'R1', 'falcon/app.py',
   """                process_response(req, resp, resource, req_succeeded)
             except Exception as ex:
@@ -579,3 +579,100 @@ M2('c04-to-json-strips-high-bytes', 'C04', 'R4', [
     {'file': 'falcon/http_error.py', 'old': "        return handler.serialize(obj, MEDIA_JSON)\n",
      'new': "        return re.sub(rb'[\\x80-\\x9f]', b'', handler.serialize(obj, MEDIA_JSON))\n"},
 ])
+
+# ------------------------------------------------ wave 10
+# R1 (s10-c04-2 / s6-c05-2): the body is rendered AGAIN inside the except arm of the rendering window, outside every
+# try: a second rendering failure (error document negotiated to the same failing media handler) escapes to the server
+_RENDER_ARM = """            if not self._handle_exception(req, resp, ex, params):
+                raise
+
+            req_succeeded = False
+
+        resp_status: str = code_to_http_status(resp.status)
+"""
+M('c04-wsgi-render-again-in-except-arm', 'C04', 'R1', 'falcon/app.py', _RENDER_ARM,
+  """            if not self._handle_exception(req, resp, ex, params):
+                raise
+
+            req_succeeded = False
+
+            body, length = self._get_body(resp, env.get('wsgi.file_wrapper'))
+
+        resp_status: str = code_to_http_status(resp.status)
+""", also=('C03', 'C05', 'C06'))
+M('c04-wsgi-render-again-after-the-window', 'C04', 'R1', 'falcon/app.py', _RENDER_ARM,
+  """            if not self._handle_exception(req, resp, ex, params):
+                raise
+
+            req_succeeded = False
+
+        if not req_succeeded and resp.media is not None:
+            body, length = self._get_body(resp, env.get('wsgi.file_wrapper'))
+
+        resp_status: str = code_to_http_status(resp.status)
+""", also=('C03', 'C05', 'C06'))
+M('c04-asgi-render-again-in-except-arm', 'C04', 'R1', 'falcon/asgi/app.py',
+  """            if not await self._handle_exception(req, resp, ex, params):
+                raise
+
+            req_succeeded = False
+
+        resp_status: int = resp.status_code
+""", """            if not await self._handle_exception(req, resp, ex, params):
+                raise
+
+            req_succeeded = False
+
+            data = await resp.render_body()
+
+        resp_status: int = resp.status_code
+""", also=('C03', 'C05', 'C06'))
+# R4(c) (s10-c04-3): the hand-written title/description/code blocks of _to_xml folded into one loop over a constant
+# table, guarded by truthiness where to_dict has `is not None`: code=0 / description='' vanish from the XML only
+_XML_BLOCKS = """        et.SubElement(error_element, 'title').text = self.title
+
+        if self.description is not None:
+            et.SubElement(error_element, 'description').text = self.description
+
+        if self.code is not None:
+            et.SubElement(error_element, 'code').text = str(self.code)
+"""
+M('c04-xml-field-loop-truthiness-guard', 'C04', 'R4', 'falcon/http_error.py', _XML_BLOCKS,
+  """        for name in ('title', 'description', 'code'):
+            value = getattr(self, name)
+            if value:
+                et.SubElement(error_element, name).text = str(value)
+""")
+M('c04-xml-field-pairs-loop-truthiness-guard', 'C04', 'R4', 'falcon/http_error.py', _XML_BLOCKS,
+  """        et.SubElement(error_element, 'title').text = self.title
+
+        for name, value in (('description', self.description), ('code', self.code)):
+            if value:
+                et.SubElement(error_element, name).text = str(value)
+""")
+M('c04-xml-field-loop-skips-falsy-by-continue', 'C04', 'R4', 'falcon/http_error.py', _XML_BLOCKS,
+  """        et.SubElement(error_element, 'title').text = self.title
+
+        for name in ('description', 'code'):
+            value = getattr(self, name)
+            if not value:
+                continue
+            et.SubElement(error_element, name).text = str(value)
+""")
+M('c04-xml-field-loop-forgets-code', 'C04', 'R4', 'falcon/http_error.py', _XML_BLOCKS,
+  """        et.SubElement(error_element, 'title').text = self.title
+
+        for name in ('description',):
+            value = getattr(self, name)
+            if value is not None:
+                et.SubElement(error_element, name).text = str(value)
+""")
+# R2 through a hoisted bound lookup (the shape of the behaviour-preserving k1-c04-2): the clause still decides
+M('c04-find-hoisted-get-reversed-walk', 'C04', 'R2', 'falcon/app.py',
+  """        for exc in type(ex).__mro__[:-1]:
+            handler = self._error_handlers.get(exc)
+""", """        get_handler = self._error_handlers.get
+
+        for exc in reversed(type(ex).__mro__[:-1]):
+            handler = get_handler(exc)
+""")
